@@ -293,6 +293,21 @@ def bundled(chk, rng, thorough):
 
     readings = defreg.readings
 
+    # a unit built from a container that names a prefixed unit the registry has not parsed yet is a valid object: it formats
+    fresh_u = pint.UnitRegistry()
+    for pre, nm in (("milli", "second"), ("kilo", "gram"), ("micro", "farad"), ("nano", "henry"), ("mega", "parsec")):
+        for spec in ("D", "~", "~P", "~C", "~H", "~L", "P"):
+            chk.case(("unparsed-prefixed-unit", pre + nm, spec))
+            try:
+                un = fresh_u.Unit(fresh_u.UnitsContainer({pre + nm: 1, "meter": -1}))
+                text = format(un, spec)
+                qtext = format(fresh_u.Quantity(2.5, un), spec)
+            except Exception as e:
+                chk.diverge({"clause": "format-raises", "exc": type(e).__name__, "src": "unparsed-prefixed-unit", "short": spec.startswith("~")}, {"unit": pre + nm + " / meter", "spec": spec})
+                continue
+            want = pint.UnitRegistry().parse_units(pre + nm + " / meter")
+            if text != format(want, spec):
+                chk.diverge({"clause": "denotation", "src": "unparsed-prefixed-unit"}, {"unit": pre + nm + " / meter", "spec": spec, "text": text, "expected": format(want, spec)})
     for e, clause in defreg.validate(chk, "Trace_Format", events, label="fmt"):
         sig = {"clause": clause, "fmt": e["fmt"], "short": e["short"], "src": "bundled"}
         # why: the symbol of a prefixed unit (prefix symbol + unit symbol) can have a second reading: it is, letter for letter, a defined
